@@ -157,8 +157,10 @@ def parse_rvalue(s):
         j = s.index('}')
         rest = s[j+1:].strip()
         caps = []
-        if rest.startswith('{'):
-            caps = rest
+        if rest.startswith('{') and rest.endswith('}'):
+            for f in split_top(rest[1:-1]):
+                if ':' in f:
+                    k, v = f.split(':', 1); caps.append(parse_operand(v))
         return ('closure', s[:j+1], caps)
     # ADT aggregate: Path::Variant(args) | Path::Variant | Path { f: v, .. }
     if s.endswith(')'):
@@ -260,7 +262,8 @@ def parse_mir(text):
             name = hdr[:j]; args = split_top(hdr[j+1:k])
             cur = Fn(name, hdr); cur.nargs = len(args)
             for a in args:
-                mm = re.match(r'_(\d+): (.*)', a); cur.locals[int(mm.group(1))] = mm.group(2)
+                mm = re.match(r'_(\d+): (.*)', a)
+                if mm: cur.locals[int(mm.group(1))] = mm.group(2)
             ret = hdr[k+5:] if ') -> ' in hdr[k:] else '()'
             cur.locals[0] = ret
             fns.setdefault(name, []).append(cur); curblk = None
@@ -305,7 +308,12 @@ def parse_mir(text):
         if m:
             curblk = Block(); curblk.cleanup = bool(m.group(2)); cur.blocks['bb' + m.group(1)] = curblk; continue
         if curblk is None: continue
-        st = parse_statement(s)
+        try:
+            st = parse_statement(s)
+        except Exception:
+            # a construct this parser has no rule for (e.g. a thread-local reference): kept verbatim; executing it is 'unsupported', scanning sees its text
+            st = ('unparsed', s)
+            if ' -> ' in s and ('return:' in s or 'unwind' in s): st = ('call', ('local', 0), 'UNPARSED ' + s[:200], [], {})
         if st[0] in ('goto','return','unreachable','resume','switch','drop','assert','call'):
             curblk.term = st
         elif st[0] != 'nop':
